@@ -704,6 +704,19 @@ def main(out_path):
     L.append("  " + txt + ".")
     L.append("")
 
+    # --- which edges a search may follow (the criterion filter of search_for_path)
+    m = re.search(r"let\s+allow_any_criteria\s*=\s*mode\s*==\s*SearchMode::(\w+)\s*&&\s*matches!\(\s*edge\.origin\s*,\s*DeltaEdgeOrigin::(\w+)\s*\{\s*\.\.\s*\}\s*\)\s*;", sfp)
+    if not m or m.group(2) not in ORIGIN_KIND:
+        raise TranslateError("search_for_path: `let allow_any_criteria = mode == .. && matches!(edge.origin, ..)` not found")
+    if not re.search(r"if\s*!\s*allow_any_criteria\s*&&\s*!\s*edge\.criteria\.has_criteria\(\s*criteria_idx\s*\)\s*\{[^}]*continue;", sfp):
+        raise TranslateError("search_for_path: the edge filter `if !allow_any_criteria && !edge.criteria.has_criteria(criteria_idx) { continue; }` changed")
+    if not re.search(r"if\s+visited\.contains\(\s*&edge\.version\s*\)\s*\{[^}]*continue;", sfp):
+        raise TranslateError("search_for_path: an edge to an already visited version must be skipped with `continue`")
+    L.append("(* an edge is followed when it carries the criterion, or (regenerating exemptions) when it is an exemption *)")
+    L.append(f"Definition usable_src (m : search_mode) (k : okind) (has_criterion : bool) : bool :=")
+    L.append(f"  (smode_eqb m {m.group(1)} && okind_eqb k {ORIGIN_KIND[m.group(2)]}) || has_criterion.")
+    L.append("")
+
     # --- which RequiredEntry kinds each path origin records (resolve_package_required_entries)
     rre = fn_body(resolver, "resolve_package_required_entries")
     m = re.search(r"for\s+origin\s+in\s+path\s*\{\s*match\s+origin\s*\{", rre)
